@@ -238,6 +238,17 @@ def _run(ctx, pt, rng, quick, cap, tmpdir):
     ctx.extra['kernel_cases'] = len(items)
 
 
+
+_run_main = run
+
+
+def run(ctx):   # noqa: F811
+    _run_main(ctx)
+    from harness import c02_extra
+    import logging
+    logging.getLogger('qecsim').setLevel(logging.CRITICAL)
+    c02_extra.run(ctx)
+
 def replay(path):
     """re-run the recorded decode and re-apply the verified checker"""
     from qecsim import paulitools as pt
